@@ -7,11 +7,13 @@ import os
 import shutil
 import subprocess
 import sys
+import tempfile
 from concurrent.futures import ThreadPoolExecutor
 
 VERIF = os.path.dirname(os.path.dirname(os.path.abspath(__file__)))
 REPO = sys.argv[1] if len(sys.argv) > 1 else os.environ.get('VERIF_REPO', '/repo')
 TC = 'pybufrkit/templatecompiler.py'
+KEY = "            tuple(template.original_descriptor_ids),\n"
 
 MUTATIONS = [
     ('loop-repeat-evaluated-once', TC,
@@ -21,8 +23,8 @@ MUTATIONS = [
      "            if statement.state_properties is not None:\n",
      "            if statement.state_properties is not None and False:\n"),
     ('cache-key-without-table-group', TC,
-     "            tuple(template.original_descriptor_ids),\n            table_group.key\n",
-     "            tuple(template.original_descriptor_ids),\n"),
+     "            table_group.key,\n            TableGroupCacheManager.extra_entries_generation()",
+     "            TableGroupCacheManager.extra_entries_generation()"),
     ('eviction-removed', TC,
      "                    self.cache.popitem()\n",
      "                    pass\n"),
@@ -46,12 +48,28 @@ MUTATIONS = [
     ('cache-limit-off-by-one', TC,
      "                if len(self.cache) >= self.cache_max:\n",
      "                if len(self.cache) > self.cache_max:\n"),
+    # siblings of seeded/C08-2: weak identifications of a template in the key of the compiled-template cache
+    ('key-top-level-members-only (seeded C08-2)', TC, KEY, "            tuple(member.id for member in template.members),\n"),
+    ('key-sorted-ids', TC, KEY, "            tuple(sorted(template.original_descriptor_ids)),\n"),
+    ('key-set-of-ids', TC, KEY, "            frozenset(template.original_descriptor_ids),\n"),
+    ('key-first-three-ids', TC, KEY, "            tuple(template.original_descriptor_ids[:3]),\n"),
+    ('key-without-replication-factors', TC, KEY, "            tuple(i for i in template.original_descriptor_ids if i // 1000 != 31),\n"),
+    ('key-length-and-sum', TC, KEY, "            (len(template.original_descriptor_ids), sum(template.original_descriptor_ids)),\n"),
+    ('key-first-last-length', TC, KEY,
+     "            (template.original_descriptor_ids[0], template.original_descriptor_ids[-1], len(template.original_descriptor_ids)),\n"),
+    ('key-two-levels-of-the-tree', TC, KEY,
+     "            tuple((m.id, getattr(getattr(m, 'factor', None), 'id', 0)) + tuple(c.id for c in getattr(m, 'members', [])) for m in template.members),\n"),
+    ('key-class-instead-of-id-for-elements', TC, KEY,
+     "            tuple(i // 1000 if i // 100000 == 0 else i for i in template.original_descriptor_ids),\n"),
 ]
+
+
+SCRATCH = tempfile.mkdtemp(prefix='c08mut_', dir='/tmp')
 
 
 def run_one(m):
     name, path, old, new = m
-    d = '/tmp/w/c08/mut/' + name
+    d = os.path.join(SCRATCH, name.split(' ')[0])
     if os.path.exists(d):
         shutil.rmtree(d)
     shutil.copytree(REPO, d, ignore=shutil.ignore_patterns('.git', '__pycache__', '*.pyc'))
@@ -74,8 +92,9 @@ def run_one(m):
 
 
 if __name__ == '__main__':
-    with ThreadPoolExecutor(6) as ex:
+    with ThreadPoolExecutor(3) as ex:      # every check runs on up to 16 processes itself
         res = list(ex.map(run_one, MUTATIONS))
     for name, verdict, first in res:
         print('%-40s %s   %s' % (name, verdict, first))
+    shutil.rmtree(SCRATCH, ignore_errors=True)
     print('%d/%d caught' % (sum(1 for r in res if r[1] == 'CAUGHT'), len(res)))
